@@ -29,12 +29,12 @@
    FixRetry = FALSE models retryableAuthMethod.auth before the repair: it called the wrapped
    method again after a failure whatever method list came with that failure -- TLC finds the
    Q1r counterexample (SSHAuthClient_DocRetry.cfg).
-   FixRetryList = FALSE models retryableAuthMethod.auth as it is: it returns the method list of
-   the last call only, so when a retried publickey attempt returns no list (every query
-   rejected) the list an earlier try received with a rejected signature is lost and
-   clientAuthenticate falls back to an older one (open finding C34-R2: Q1 fails for
-   configurations with a retryable publickey entry); TRUE models a wrapper that then returns
-   the most recent list any of its tries received. *)
+   FixRetryList is TRUE for the code as it is (repair 226918a: the wrapper returns the most
+   recent method list any of its tries received).  FALSE models the wrapper before the repair:
+   it returned the list of the last call only, so when a retried publickey attempt returned no
+   list (every query rejected) the list an earlier try received with a rejected signature was
+   lost and clientAuthenticate fell back to an older one -- TLC finds the Q1 counterexample
+   (SSHAuthClient_DocRetryList.cfg). *)
 EXTENDS SSHAuthObserver
 
 CONSTANTS Configs,     \* config name -> ClientConfig.Auth: sequence of [m, retry, signers]
@@ -371,9 +371,7 @@ Spec == Init /\ [][Next]_vars
 -----------------------------------------------------------------------------
 (* Properties *)
 Q1  == HoldsQ1(o)
-(* Q1 outside the configurations concerned by the open finding C34-R2 *)
 RetryPk == \E i \in 1..Len(Auth) : Auth[i].m = PK /\ Auth[i].retry >= 0
-Q1Guard == (FixRetryList \/ ~RetryPk) => Q1
 Q1b == HoldsQ1b(o)
 Q1r == HoldsQ1r(o)
 Q2  == HoldsQ2(o)
